@@ -66,6 +66,9 @@ func runC13(t *rapid.T) {
 			c.queue = append(c.queue, chainsim.ChainOp{Delete: true, Block: m.Block})
 		}
 	}
+	if simkit.Chance(t, "withtransactions", 2, 3) {
+		chainsim.NewTxSource(w, time.Duration(simkit.Int(t, "txevery", 800, 4000))*time.Millisecond)
+	}
 	w.StartAll()
 	blocks := simkit.Int(t, "blocks", 6, 60)
 	horizon := time.Duration(blocks) * w.BlockTime
